@@ -313,7 +313,9 @@ impl World {
 
 	pub fn coinbase_nobody(&mut self, fees: u64) -> (Output, TxKernel) {
 		self.nobody_n += 1;
-		let kid = ExtKeychain::derive_key_id(3, 9, 9, self.nobody_n, 0);
+		// unique per (height being built, in-memory counter): survives re-opening a copied world
+		let h = self.height() as u32 + 1;
+		let kid = ExtKeychain::derive_key_id(3, 9, h, self.nobody_n, 0);
 		reward::output(&self.nobody, &ProofBuilder::new(&self.nobody), &kid, fees, false).unwrap()
 	}
 
